@@ -31,7 +31,9 @@ def theorem_names():
 
 # texts every run starts with (they recur across sessions): string literals that span lines, tokens at the very end of the input
 SEED_TEXTS = ['let msg = "first line\nsecond line";\nlet z = 1;\n', 'let t = {a = "x\n\ny", b = "tail\n"};\n', 'let s = "ends without newline"',
-              'let m = "a\r\nb";\r\nlet n = 2;\r\n']
+              'let m = "a\r\nb";\r\nlet n = 2;\r\n',
+              # rejected at the end of the input, which ends with line breaks / blank lines
+              'let x = 1\n', 'let a = 1;\nlet\n', 'let y = {a = 1\n\n', 'let z = [1, 2\r\n', 'let q = 1;\nlet w = q +\n  \n']
 POOL = list(SEED_TEXTS)
 
 
